@@ -116,6 +116,34 @@ def apalache_inductive(ctx):
     shutil.rmtree(out, ignore_errors=True)
 
 
+def lockstep(obj, n1, n2):
+    """consume gen_indices(n1) and gen_indices(n2) of ONE selector alternately; returns [(list1, None), (list2, None)]"""
+    g = [obj.gen_indices(n1), obj.gen_indices(n2)]
+    out = [[], []]
+    live = [True, True]
+    while any(live):
+        for k in (0, 1):
+            if live[k]:
+                try:
+                    out[k].append(next(g[k]))
+                except StopIteration:
+                    live[k] = False
+    return [(out[0], None), (out[1], None)]
+
+
+def interrupted(obj, n):
+    """walk gen_indices(n) half way, ask indices(n) in the middle, finish the walk"""
+    g = obj.gen_indices(n)
+    half = []
+    for _ in range(max(1, n // 3)):
+        try:
+            half.append(next(g))
+        except StopIteration:
+            break
+    mid = obj.indices(n)
+    return half, mid, list(g)
+
+
 def run(ctx):
     repo.setup()
     from TotalDepth.common import Slice as S
@@ -207,6 +235,12 @@ def run(ctx):
             tr.append(dict(op='count', n=n, r=sm.count(n)))
             tr.append(dict(op='first', n=n, r=sm.first(n)))
             ctx.case(('sample', N, n), 1 < N < n)
+        for n in range(0, 2 * M + 1, 3):
+            for k, (a_, _b) in enumerate(lockstep(sm, n, n + 5)):
+                tr.append(dict(op='gen_indices', n=(n, n + 5)[k], r=a_))
+            half, mid, rest = interrupted(sm, n)
+            tr.append(dict(op='indices', n=n, r=mid))
+            tr.append(dict(op='gen_indices', n=n, r=half + rest))
         traces.append(tr)
     # 3. long random histories on real objects
     rng = ctx.subrng('traces')
@@ -227,6 +261,13 @@ def run(ctx):
             tr = [dict(op='new_slice', a=[] if a is None else [a], b=[] if b is None else [b],
                        c=[] if c is None else [c])]
             lens = [rng.choice([0, 1, span - 1, span, span + 1, rng.randint(0, big)]) for _ in range(6)]
+        # two generators of the same object alive at once (walking two arrays in lockstep), and a call in the middle of a walk
+        n1, n2 = rng.choice(lens), rng.choice(lens)
+        for k, (a_, b_) in enumerate(lockstep(obj, n1, n2)):
+            tr.append(dict(op='gen_indices', n=(n1, n2)[k], r=a_))
+        half, mid, rest = interrupted(obj, n1)
+        tr.append(dict(op='indices', n=n1, r=mid))
+        tr.append(dict(op='gen_indices', n=n1, r=half + rest))
         for n in lens:
             for op in rng.sample(['indices', 'gen_indices', 'count', 'first'], 4):
                 if op == 'indices':
